@@ -55,10 +55,12 @@ def value_id(v):
     return int(v)
 
 
-def spec_for(chain, upto, ondisk, tag):
+def spec_for(chain, upto, ondisk, tag, dd=None):
     spec = None
     for i in range(upto + 1):
         spec = {"id": tag * 100 + i, "own": [[k, d] for k, d, _ in chain[i]], "parent": spec, "ondisk": ondisk[i]}
+        if dd and dd[i] and not ondisk[i]:
+            spec["dd"] = True
     return spec
 
 
@@ -92,6 +94,7 @@ def run(tier, seed):
             length = rng.choice([0, 1, 1, 2, 2, 3, 4])
             chain = gen_chain(rng, length)
             ondisk = [rng.random() < 0.25 for _ in chain]
+            dd = [rng.random() < 0.3 for _ in chain]          # staged in a dictionary with a default factory
             cache = rng.random() < 0.6
             path = os.path.join(scratch, "pstore%d" % ci)
 
@@ -100,7 +103,7 @@ def run(tier, seed):
             b = backend()
             fnlib.set_env(m, scratch, {"fc": (b, None)})
             provs = []
-            meta = {"chain(root first)": [[(k, vid) for k, _, vid in own] for own in chain], "ondisk": ondisk, "cache": cache}
+            meta = {"chain(root first)": [[(k, vid) for k, _, vid in own] for own in chain], "ondisk": ondisk, "default_factory_dict": dd, "cache": cache}
             stats["chains"][length] = stats["chains"].get(length, 0) + 1
             stats["ondisk_links"] += sum(ondisk)
             ok = True
@@ -115,10 +118,10 @@ def run(tier, seed):
                         b._memory_cache.forget_everything()
                 elif prov == "fresh" and i > 0:
                     # forget the parent link only, so that the nested call computes it again in this process
-                    fnmod.pnode.forget(spec_for(chain, i - 1, ondisk, ci))
+                    fnmod.pnode.forget(spec_for(chain, i - 1, ondisk, ci, dd))
                 provs.append(prov)
                 stats["provenance"][prov] = stats["provenance"].get(prov, 0) + 1
-                spec = spec_for(chain, i, ondisk, ci)
+                spec = spec_for(chain, i, ondisk, ci, dd)
                 try:
                     first = fnmod.pnode(spec)
                     got_first = read_partition(first)
@@ -137,7 +140,7 @@ def run(tier, seed):
                 try:
                     if i > 0:
                         # storing a child must not change what the parent reads as (e.g. from the memory cache)
-                        pvals, _ = read_partition(fnmod.pnode(spec_for(chain, i - 1, ondisk, ci)))
+                        pvals, _ = read_partition(fnmod.pnode(spec_for(chain, i - 1, ondisk, ci, dd)))
                         if pvals != overlay(chain, i - 1):
                             rep.violation("C17:parent-changed-by-child", "after storing link %d its parent reads %r instead of %r" % (i, pvals, overlay(chain, i - 1)), meta_i)
                     reads["second call"] = read_partition(fnmod.pnode(spec))
@@ -153,9 +156,27 @@ def run(tier, seed):
                     rep.violation("C17:read-raised:%s" % type(e).__name__, "reading link %d back raised %s: %s" % (i, type(e).__name__, str(e)[:150]), meta_i)
                     ok = False
                     break
+                # another memento function that returns this partition unchanged (as obtained from the store, from the
+                # memory cache or from the first call): its own stored copy must read the same
+                if rng.random() < 0.6:
+                    try:
+                        how_inner = rng.choice(["disk", "cache"] if cache else ["disk"])
+                        if how_inner == "disk" and cache:
+                            b._memory_cache.forget_everything()
+                        rspec = {"id": 900000 + ci * 10 + i, "inner": spec, "depth": rng.choice([0, 0, 1])}
+                        rfirst = read_partition(fnmod.prelay(rspec))
+                        b3 = backend()
+                        fnlib.set_env(m, scratch, {"fc": (b3, None)})
+                        reads["relayed by another function (inner from %s), first call" % how_inner] = rfirst
+                        reads["relayed by another function (inner from %s), fresh backend" % how_inner] = read_partition(fnmod.prelay(rspec))
+                        fnlib.set_env(m, scratch, {"fc": (b, None)})
+                        stats["relayed"] = stats.get("relayed", 0) + 1
+                    except Exception as e:
+                        rep.violation("C17:relay-raised:%s" % type(e).__name__, "returning link %d from another memento function raised %s: %s" % (i, type(e).__name__, str(e)[:150]), meta_i)
+                        fnlib.set_env(m, scratch, {"fc": (b, None)})
                 for how, (vals, own) in reads.items():
                     if vals != want:
-                        rep.violation("C17:overlay-law:%s" % how.split()[0], "%s of link %d reads %r, parent entries overlaid by own give %r" % (how, i, vals, want), meta_i)
+                        rep.violation("C17:overlay-law:%s" % how.split()[0].rstrip(","), "%s of link %d reads %r, parent entries overlaid by own give %r" % (how, i, vals, want), meta_i)
                         ok = False
                     elif how in ("from disk", "fresh backend") and own != want_own:
                         rep.violation("C17:own-keys", "%s lists own keys %r, the partition's own keys are %r" % (how, own, want_own), meta_i)
